@@ -148,12 +148,13 @@ def explore(fn, start, stop, event, init, step, roots=None, limit=200000):
     return exits
 
 
-def path_avoiding_edges(fn, prog, start, target, edge_ok, constprop=False, avoid=()):
+def path_avoiding_edges(fn, prog, start, target, edge_ok, constprop=False, avoid=(), raw_edge_ok=None):
     """Is `target` reachable from `start` without taking a switch edge whose facts satisfy `edge_ok`?
     -> None when every path takes such an edge, else an example list of blocks.
     (`edge_ok(facts)` gets the derived facts of one switch edge, see guards.edge_facts.)
     constprop=True: boolean locals assigned a constant on the path (`flag = true` in one arm of a `matches!`, the result
-    of an inlined predicate helper) are remembered, and a later switch on such a local follows only the matching edge."""
+    of an inlined predicate helper) are remembered, and a later switch on such a local follows only the matching edge.
+    raw_edge_ok(fn, block, successor, labels, known): the same test on the edge itself (for discriminants that are plain places)."""
     from . import guards
     s0 = (start, frozenset())
     prev = {s0: None}
@@ -179,6 +180,9 @@ def path_avoiding_edges(fn, prog, start, target, edge_ok, constprop=False, avoid
                         v = 1 if str(r[1][1].get("v")) == "1" else 0
                     elif r[0] == "use" and r[1][0] in ("c", "m") and not r[1][1][1]:
                         v = kd.get(r[1][1][0])
+                    elif r[0] == "use" and r[1][0] in ("c", "m") and r[1][1][1] and raw_edge_ok is not None:
+                        # a copy of a field place (`_r = copy (attrs.serde).flag`): remembered symbolically for raw_edge_ok
+                        v = ("p",) + tuple(str(pr[2]) if pr[0] == "f" else str(pr[0]) for pr in r[1][1][1])
                     if v is None:
                         kd.pop(st["p"][0], None)
                     else:
@@ -191,7 +195,7 @@ def path_avoiding_edges(fn, prog, start, target, edge_ok, constprop=False, avoid
         k2 = frozenset(kd.items())
         if t["k"] == "switch":
             only = None
-            if constprop and t["discr"][0] in ("c", "m") and not t["discr"][1][1] and t["discr"][1][0] in kd and t.get("dty") == "bool":
+            if constprop and t["discr"][0] in ("c", "m") and not t["discr"][1][1] and kd.get(t["discr"][1][0]) in (0, 1) and t.get("dty") == "bool":
                 only = kd[t["discr"][1][0]]
             by_succ = {}
             for s, lab in fn.succ(b):
@@ -204,6 +208,8 @@ def path_avoiding_edges(fn, prog, start, target, edge_ok, constprop=False, avoid
                 except Exception:
                     facts = []
                 if edge_ok(facts):
+                    continue
+                if raw_edge_ok is not None and raw_edge_ok(fn, b, s, labs, kd):
                     continue
                 # the residual edge of a match that already listed every variant cannot be taken
                 if any(fa.kind == "variant" and fa.allowed is not None and len(fa.allowed) == 0 for fa in facts):
